@@ -321,12 +321,14 @@ def provenanceOf (st : State) (s : Store) : List ((Scope × Sel) × String × Lo
     | _ => none))
 
 /-- `singleton_value(key, constructor)` (2757-2766): look up or construct-and-cache. -/
-def singletonUse (st : State) (key : String) (hasCtor : Bool) : Except Err (State × Val) :=
+def singletonUse (st : State) (key : String) (hasCtor : Bool) (retNone : Bool := false) :
+    Except Err (State × Val) :=
   match AList.lookup key st.singletons with
   | some v => .ok (st, v)
   | none =>
     if !hasCtor then .error .valueError else
-    let v := Val.obj (7000 + st.constructed)
+    -- a constructor may well return `None`: that value is the singleton and is cached like any other
+    let v := if retNone then Val.none else Val.obj (7000 + st.constructed)
     .ok ({ st with singletons := AList.set key v st.singletons, constructed := st.constructed + 1 }, v)
 
 end State
